@@ -84,3 +84,23 @@ CHECKS["C17"] = dict(
     parts=[P("scripts", "^TestC17Scripts$", shards=(8, 16))],
     floor=100,
 )
+
+CHECKS["C10"] = dict(
+    level="exploration",
+    technique="oracles wrapped around the exported codec functions (round trip, canonical-prefix re-encoding, no panic under recover) fed by boundary-biased generators and mutation of valid encodings, differentially against an independent TLS-presentation encoder/strict decoder and an independent tile-path renderer/parser; built with -race (checkptr) for one pass",
+    text="~60k (thorough ~3M) generated entries are encoded and compared bytewise with an independent encoder (TileLeaf and RFC 6962 MerkleTreeLeaf), decoded back, and their encodings mutated (bit flips, truncation at every offset, trailing bytes, length +-1, double/unknown/short/long extensions, entry type, timestamp overflow, odd fingerprint length, concatenation) and decoded with the oracle 'error, or the consumed prefix re-encodes to exactly the same bytes and equals the reference decoder's result'; random strings likewise. Leaf-index extension round trip over all bit lengths and refusal at -1, 2^40, 2^63-1 etc.; tile paths forward (vs. reference renderer, parse back) and backward (mutated strings: accept/reject agreement with the reference parser and canonical re-rendering). Every call runs under recover.",
+    note="Trusted: harness/ref.go encoders, decoder and path code (written from the RFC/c2sp specs). Levels above 63 in tile paths are not demanded to be rejected (the property asks for canonical round trips only). The Go native fuzz engine is not used (generator + mutation suffices and is seed-deterministic).",
+    design_ref="DESIGN.md section 3, C10",
+    parts=[P("codec", "^TestC10Codec$", shards=(8, 16)), P("codec-checkptr", "^TestC10Codec$", race=True, shards=(4, 8), tiers=("thorough",))],
+    floor=10000,
+)
+
+CHECKS["C11"] = dict(
+    level="exploration",
+    technique="differential runtime oracles around the real signer and verifier: every signed checkpoint is re-verified by an independent note parser + certificate-transparency-go STH verifier (+ cosignature verifier, embedded timestamp, byte-equal re-signing); every accept decision of the sunlight verifier on ~600 mutants per checkpoint must be matched by the independent verifier",
+    text="Generated (origin, size, root, timestamp) tuples incl. 0, 1, 2^63-1 and unusual names are signed by the real signTreeHead (hook) and by the injected signer with ECDSA P-256/P-384 and RSA-2048 signatures made by the harness. Each checkpoint must open with the public verifier, carry a verifying ML-DSA cosignature, embed the timestamp, verify independently with the same tuple, and re-sign to identical RFC 6962 signature bytes; the injected signer must refuse a signature over another tree head. Each checkpoint is then mutated (text byte substitutions, size/root/origin/extension/leading-zero edits, every blob byte flipped, truncations, trailing bytes with and without length fix-up, algorithm ids, foreign signer name, trailing note bytes): accepted by sunlight => accepted by the independent verifier on the tuple parsed from the mutant, origin = verifier name, no extension line, blob consumed exactly.",
+    note="Independent side: harness note/checkpoint parser and blob parser, certificate-transparency-go SignatureVerifier (standard-library ECDSA/RSA for P-384, which ct-go refuses). ECDSA signature malleability is outside both verifiers' control and not judged.",
+    design_ref="DESIGN.md section 3, C11",
+    parts=[P("checkpoints", "^TestC11Checkpoints$", shards=(4, 16))],
+    floor=1000,
+)
